@@ -179,6 +179,10 @@ func runC05(c *Ctx) {
 		c.MinInstances("C05.R6 pruning-below-finality (diffs)", m, 1)
 	}
 
+	// ---- R7 the diff classifies a key as added/updated/deleted by the overlay's
+	// not-in-database sentinel (init == nil); every producer of overlay entries keeps it
+	checkSentinelProducers(c, "C05.R7 diff-classification-sentinel", commit)
+
 	// ---- R2 state diff lifecycle
 	var setKey, delKey, getKey *Term
 	for _, op := range DBOps(procV) {
